@@ -16,6 +16,7 @@ import CBV.Lemmas.C11Geom
 import CBV.Lemmas.C11Loft
 import CBV.Lemmas.C11Distinct
 import CBV.Lemmas.C11Oval
+import CBV.Lemmas.C11Rev
 import Mathlib.Analysis.Real.Sqrt
 import Mathlib.Tactic.NormNum
 import Mathlib.Tactic.Ring
@@ -856,6 +857,46 @@ theorem T_C11_wrapped_oval_constants :
     (0 < diagRatioR ∧ diagRatioR < 1) ∧ DiskOK DiskCls.half (Real.sqrt 2 / 2) coreRatioR diagRatioR :=
   ⟨T_C11_disk_constants .oneCore, T_C11_disk_constants .half⟩
 
+/-! ## Part I — revolved shapes: a sketch and its copy turned about an axis in its plane -/
+
+section PartI
+open P3
+variable {K : Type} [Field K] [LinearOrder K] [IsStrictOrderedRing K]
+
+/-- **`RevolvedShape(sketch, angle, axis, origin)` is right-handed** for every mapped sketch (any quad map, any
+    positions) that lies in a half-plane through the axis, and every sweep with positive sine (0 < angle < π):
+    `o` a point of the axis, `k` its unit direction, `N ⟂ k` the unit normal of the sketch, the positions given by
+    plane coordinates `(x, y, 0)` in the frame `(k, N × k, N)` with heights `y > 0` over the axis and convex
+    counter-clockwise quads. All eight corner Jacobians of every block equal
+    `sin · height of the corner · plane cross product at the corner` (`jacs_revolved`; no use of `cos² + sin² = 1`).
+    The turned copy is computed by the model's `rotAbout` (= `f.rotate`), not assumed (`rotAbout_axis_frame`). -/
+theorem T_C11_revolved_rightHanded (o k N : P3 K) (L : List (P3 K)) (cs sn : K) (quads : List (List Nat))
+    (hk : nsq k = 1) (hN : nsq N = 1) (hNk : dot N k = 0) (hsn : 0 < sn) (hz : ∀ p ∈ L, p.z = 0)
+    (hq : ∀ q ∈ quads, convexCCW (quadOf L q) ∧ aboveAxis (quadOf L q)) :
+    ∀ H ∈ revolveOf quads (L.map (frame o k N)) (frame o k N ⟨0, 0, 0⟩) cs sn k o, H.RH :=
+  revolve_RH o k N L cs sn quads hk hN hNk hsn hz hq
+
+/-- the Jacobians of a revolved block vanish exactly with the sine and with the height: a sweep of 0 or π, or a
+    corner on the axis, gives a degenerate block (the conditions of the theorem are sharp) -/
+theorem T_C11_revolved_jacobian (o k N a b d e : P3 K) (cs sn : K)
+    (ha : a.z = 0) (hb : b.z = 0) (hd : d.z = 0) (he : e.z = 0) :
+    (Hex.jacs ⟨frame o k N a, frame o k N b, frame o k N d, frame o k N e, frame o k N (revL cs sn a),
+        frame o k N (revL cs sn b), frame o k N (revL cs sn d), frame o k N (revL cs sn e)⟩).head?
+      = some (frameDet k N * (sn * a.y * cross2K a b e)) := by
+  rw [jacs_revolved o k N a b d e cs sn ha hb hd he]; rfl
+
+end PartI
+
+/-- non-vacuity: the square (0,1)–(1,2) above the x axis turned by the angle with (cos, sin) = (3/5, 4/5) -/
+example : ∀ H ∈ revolveOf [[0, 1, 2, 3]]
+    (([⟨0, 1, 0⟩, ⟨1, 1, 0⟩, ⟨1, 2, 0⟩, ⟨0, 2, 0⟩] : List (P3 Rat)).map (frame ⟨0, 0, 0⟩ ⟨1, 0, 0⟩ ⟨0, 0, 1⟩))
+    (frame ⟨0, 0, 0⟩ ⟨1, 0, 0⟩ ⟨0, 0, 1⟩ ⟨0, 0, 0⟩) (3 / 5) (4 / 5) ⟨1, 0, 0⟩ ⟨0, 0, 0⟩, H.RH := by
+  apply T_C11_revolved_rightHanded _ _ _ _ _ _ _ (by norm_num [P3.nsq, P3.dot]) (by norm_num [P3.nsq, P3.dot])
+    (by norm_num [P3.dot]) (by norm_num)
+  · intro p hp; simp only [List.mem_cons, List.not_mem_nil, or_false] at hp; rcases hp with rfl | rfl | rfl | rfl <;> rfl
+  · intro q hq; simp only [List.mem_cons, List.not_mem_nil, or_false] at hq; subst hq
+    simp [quadOf, convexCCW, aboveAxis, cross2K]
+
 /-! ## Part G — joints: one construction for every branch count -/
 
 /-- the hand model `jointBlocks n` / `jointChopNodes n` (uniform in `n`) is the assembled `NJoint(n)` probe, vertex
@@ -869,6 +910,15 @@ theorem T_C11_joint_model_matches_probes : ∀ n ∈ [2, 3, 4, 5, 6], jointMatch
    Proved part: every branch count from 2 to 12 on the uniform model, by evaluation. -/
 theorem T_C11_joint_choppable_upto12_partial :
     ∀ n ∈ [2, 3, 4, 5, 6, 7, 8, 9, 10, 11, 12], writeOk (jointBlocks n halfQuads) (jointChopNodes n) = true := by
+  decide +kernel
+
+/- The clause "every family chopped exactly once" is FALSE for joints; the true clause is: a joint with `n` branches
+   has `2 n + 3` wire families (n axial, n − 1 + 3 tangential, 1 radial, …), every one is chopped at least once
+   (`T_C11_joint_choppable_upto12_partial`), all of them exactly once except the radial family, which is chopped twice:
+   `chop_radial` chops `shell[0]` of both halves of branch 0 and their radial wires are joined through the common
+   diameter.  Full statement `∀ n ≥ 2` not proved (same missing induction); proved for 2..8 by evaluation. -/
+theorem T_C11_joint_families_upto8_partial : ∀ n ∈ [2, 3, 4, 5, 6, 7, 8],
+    (jointFamilyCounts n).length = 2 * n + 3 ∧ (jointFamilyCounts n).filter (· != 1) = [2] := by
   decide +kernel
 
 /-- the model has 12 blocks per branch and 23 n + 5 vertices (17 bottom points per branch, 6 per mitre face, 5 on the
